@@ -2,6 +2,7 @@ import LassoProofs.Lemmas.Conc
 import LassoProofs.Lemmas.SerdeT
 import LassoModel.Extracted
 import LassoProofs.Lemmas.ConcEffects
+import LassoProofs.Lemmas.ConcSeq
 /-
   C03 — concurrent interning is atomic: one key per string under every schedule.
 
@@ -211,5 +212,24 @@ theorem steps_are_source_operations (sh : Bytes → Nat) (N cap max : Nat) (x : 
     ((pcsAlong sh N (init cap max [[.intern x]]) 0 6).flatMap effectsOfStep) = Extracted.internEffects ∧
     ((pcsAlong sh N (init cap max [[.internStatic x]]) 0 5).flatMap effectsOfStep) = Extracted.internStaticEffects :=
   ⟨solo_intern_effects sh N cap max x hN hx hc, solo_intern_static_effects sh N cap max x hN⟩
+
+/-- Run by one thread, the machine *is* the sequential model of `ThreadedRodeo` (`Threaded.tryIntern`
+/ `tryInternStatic`, on which the single-thread theorems of C01, C02, C07, C10 about the concurrent
+interner are proved): states related through what the lookups answer (same arena, same counter, same
+key->string and string->key answers) stay related by one interning call, and the machine logs exactly
+the sequential model's result — present string, memory error, key-space error or new key. -/
+theorem solo_calls_are_sequential_model (sh : Bytes → Nat) (env : Env) (s : CS) (t : Threaded) (hR : RelT env s t)
+    (hI : t.Inv env) (x : Bytes) (rest : List Call) :
+    (s.ts = [{ pc := .idle, todo := .intern x :: rest }] →
+      ∃ n, (run sh t.N s (List.replicate n 0)).ts = [{ pc := .idle, todo := rest }] ∧
+        RelT env (run sh t.N s (List.replicate n 0)) (t.tryIntern env x).1 ∧
+        (run sh t.N s (List.replicate n 0)).log = (0, .intern x, resOf (t.tryIntern env x).2) :: s.log) ∧
+    (∀ i, env.pool[i]? = some x → s.ts = [{ pc := .idle, todo := .internStatic x :: rest }] →
+      ∃ n, (run sh t.N s (List.replicate n 0)).ts = [{ pc := .idle, todo := rest }] ∧
+        RelT env (run sh t.N s (List.replicate n 0)) (t.tryInternStatic env i).1 ∧
+        ∃ c, (c = Call.intern x ∨ c = Call.internStatic x) ∧
+          (run sh t.N s (List.replicate n 0)).log = (0, c, resOf (t.tryInternStatic env i).2) :: s.log) :=
+  ⟨fun ht => solo_intern_is_sequential sh env s t hR hI x rest ht,
+   fun i hp ht => solo_intern_static_is_sequential sh env s t hR hI i x hp rest ht⟩
 
 end Lasso.C03
